@@ -290,6 +290,11 @@ def gen_policy(rng):
     keys = [S.SP_ID, S.SP2_ID, SP3_ID, RA_ID, "default", "", AFFILIATION]
     probs = [0.45, 0.35, 0.25, 0.5, 0.6, 0.35, 0.2]
     pol = [[k, gen_spec(rng)] for k, p in zip(keys, probs) if rng.random() < p]
+    if rng.random() < 0.12:  # a falsy `default` entry makes Policy.get fall through to the "" entry
+        pol = [e for e in pol if e[0] not in ("default", S.SP_ID)] + [["default", rng.choice([{}, None])]]
+        if rng.random() < 0.7:
+            pol = [e for e in pol if e[0] != ""]  # keys of a dictionary are unique
+            pol.append(["", gen_spec(rng) or {"lifetime": gen_lifetime(rng), "nameid_format": rng.choice(FORMATS)}])
     rng.shuffle(pol)
     return pol
 
@@ -365,6 +370,15 @@ def gen_args(rng, cfg, k):
          "attrs": gen_identity(rng)}
     if rng.random() < 0.1:
         a["release_policy"] = {"policy": gen_policy(rng)}
+    if rng.random() < 0.05:
+        # directed at IdentDB.match_local_id: NameIDPolicy without Format, policy says persistent, and the user
+        # already holds a persistent identifier for this qualifier issued by this IdP
+        a["nip"] = {"format": None, "spnq": a["nip"]["spnq"] if a["nip"] else None}
+        a["name_id"] = None
+        a["release_policy"] = {"policy": [[rng.choice([rid, "default"]), {"nameid_format": NF_PERSISTENT,
+                                                                          "lifetime": gen_lifetime(rng)}]]}
+        a["stored"] = stored[:1] + [{"format": NF_PERSISTENT, "spnq": a["nip"]["spnq"] or rid,
+                                     "nq": rng.choice([S.IDP_ID, S.IDP_ID, S.IDP_ID, None]), "text": "stored-persistent"}]
     # algorithms outside the allow-lists: only together with a demanded Response signature
     if resolved(a["sign_response"], cfg["sign_response"]) and rng.random() < 0.06:
         if rng.random() < 0.5:
@@ -399,9 +413,9 @@ def gen_side(rng, cfg, a):
         side["want_either"] = opt_bool(rng, 0.5)
     skew = side["skew"] or 0
     c = rng.random()
-    if c < 0.45:
+    if c < 0.55:
         delta = rng.choice([0, 0, 1, max(0, life // 2)])
-    elif c < 0.85:
+    elif c < 0.88:
         delta = rng.choice([life - 1, life, life + 1, life + skew - 1, life + skew, life + skew + 1,
                             -1, -skew, -skew - 1, -skew + 1, 86399, 86400, 86400 + skew, 86400 + skew + 1,
                             -86400, -86400 - skew, -86400 - skew - 1, -86399])
